@@ -347,6 +347,9 @@ func (d *c14Drv) jsonCase(n int, spare bool, viaEncoder bool) {
 			must(enc.Encode(&t))
 		} else {
 			bs, _ := json.Marshal(&t) // an independently written JSON line with surrounding whitespace
+			if d.r.Intn(4) == 0 {     // member names are JSON strings like any other: they may be written with escapes
+				bs = []byte(strings.NewReplacer(`"method":`, `"\u006dethod":`, `"url":`, `"ur\u006C":`, `"body":`, `"\u0062ody":`, `"header":`, `"h\u0065ader":`).Replace(string(bs)))
+			}
 			buf.WriteString(strings.Repeat(" ", d.r.Intn(2)))
 			buf.Write(bs)
 			buf.WriteString(strings.Repeat(" ", d.r.Intn(2)) + "\n")
